@@ -189,10 +189,12 @@ def replay_paths(a):
     exe = a.cli()
     if not exe:
         return {"reproduced": False, "note": "native build failed"}
-    doc = {"a": [10, 20, {"b": [30, 40]}], "m": {"k1": 50, "k2": {"k3": 60}}, "s": "x", "big": list(range(100, 118))}
+    doc = {"a": [10, 20, {"b": [30, 40]}], "m": {"k1": 50, "k2": {"k3": 60}}, "s": "x", "big": list(range(100, 118)),
+           "nl": [1, None, 2], "ll": [[7, 8], [9]], "mix": [True, "str", 1.5], "mn": {"z": None}}
     text = json.dumps(doc, indent=1) + "\n"
     rules = ("rule t {\n  a[0] == 0\n  a[1] == 0\n  a[2].b[0] == 0\n  a[2].b[1] == 0\n  m.k1 == 0\n  m.k2.k3 == 0\n  s == 'y'\n  big[9] == 0\n"
-             "  big[10] == 0\n  big[11] == 0\n  big[15] == 0\n  big[16] == 0\n  big[17] == 0\n}\n")
+             "  big[10] == 0\n  big[11] == 0\n  big[15] == 0\n  big[16] == 0\n  big[17] == 0\n"
+             "  nl[1] == 0\n  nl[2] == 0\n  ll[0][1] == 0\n  ll[1][0] == 0\n  mix[0] == 0\n  mix[1] == 0\n  mix[2] == 0\n  mn.z == 0\n}\n")
     rc, rep, err = a.run_structured(exe, rules, [text])
     if not (rep and isinstance(rep, list) and rep):
         return {"reproduced": False, "note": "no report", "exit": rc, "stderr": (err or "")[-200:]}
@@ -224,11 +226,13 @@ def replay_paths(a):
     blob = json.dumps(rep[0])
     for m in re.finditer(r"Path=(/[^\[\]]*)\[L:(\d+),C:(\d+)\] Value=(\\?\"?[\w]+)", blob):
         pth, ln, col, val = m.group(1), int(m.group(2)), int(m.group(3)), m.group(4).replace('\\"', '"')
+        if val.strip('"') == "NULL":
+            val = "null"                  # a null is rendered as "NULL" in messages; in the JSON text it is spelled null
         if ln >= len(lines) or not lines[ln][col:].startswith(val.strip('"') if not lines[ln][col:].startswith('"') else val):
             out.append({"path": pth, "line": ln, "col": col, "text_at_position": (lines[ln][col:col + 12] if ln < len(lines) else None),
                         "reported_value": val})
-    if seen < 13:
-        out.append({"problem": f"only {seen} of 13 failing checks reported with a path"})
+    if seen < 21:
+        out.append({"problem": f"only {seen} of 21 failing checks reported with a path"})
     return {"reproduced": bool(out), "mismatches": out[:5], "document": text, "rules_file": rules}
 
 
